@@ -252,6 +252,26 @@ fn synthetic(e: &mut Emit) {
             info.si_code = code;
             let o = unsafe { Origin::extract(&info) };
             e.line(&format!("{} {} {} {} {} {}", signo, code, cause_code(&o.cause), o.process.is_some() as i64, o.process.map_or(0, |p| p.pid as i64), o.signal));
+            // the same record with particular pid / uid values the kernel really supplies: pid 0 is what
+            // a receiver sees for a sender outside its pid namespace, uid 0 is root
+            for (pid, uid) in [(0i32, 4242u32), (0, 0), (4242, 0), (1, 1)] {
+                #[repr(C)]
+                struct Head {
+                    signo: i32,
+                    errno: i32,
+                    code: i32,
+                    _pad: i32,
+                    pid: i32,
+                    uid: u32,
+                }
+                let h = unsafe { &mut *(&mut info as *mut libc::siginfo_t as *mut Head) };
+                h.pid = pid;
+                h.uid = uid;
+                assert_eq!(unsafe { info.si_pid() }, pid);
+                assert_eq!(unsafe { info.si_uid() }, uid);
+                let o = unsafe { Origin::extract(&info) };
+                e.line(&format!("V {} {} {} {} {} {} {}", signo, code, o.process.is_some() as i64, o.process.map_or(-1, |p| p.pid as i64), o.process.map_or(-1, |p| p.uid as i64), pid, uid));
+            }
         }
     }
     e.line("done");
@@ -366,6 +386,22 @@ pub fn run(tier: Tier) -> BResult {
         violations.push(BViolation { message: format!("C17: synthetic grid child {}", syn.fate.describe()), case: json!({"synthetic": true}) });
     }
     for l in &syn.lines {
+        if let Some(rest) = l.strip_prefix("V ") {
+            let t: Vec<i64> = rest.split_whitespace().filter_map(|x| x.parse().ok()).collect();
+            if t.len() != 7 {
+                continue;
+            }
+            syn_n += 1;
+            let (signo, code, has, pid, uid, wpid, wuid) = (t[0], t[1], t[2], t[3], t[4], t[5], t[6]);
+            let (_, wp) = rule(signo as i32, code as i32);
+            let case = json!({"synthetic": true, "si_signo": signo, "si_code": code, "si_pid": wpid, "si_uid": wuid});
+            if (has == 1) != wp {
+                violations.push(BViolation { message: format!("C17: synthetic si_signo {} si_code {} with si_pid {} si_uid {}: process {} (rule: {} - exactly when the cause carries one, whatever the values)", signo, code, wpid, wuid, if has == 1 { "reported" } else { "absent" }, if wp { "present" } else { "absent" }), case });
+            } else if wp && (pid != wpid || uid != wuid) {
+                violations.push(BViolation { message: format!("C17: synthetic si_signo {} si_code {}: reported pid {} uid {} but the record holds pid {} uid {}", signo, code, pid, uid, wpid, wuid), case });
+            }
+            continue;
+        }
         let t: Vec<i64> = l.split_whitespace().filter_map(|x| x.parse().ok()).collect();
         if t.len() != 6 {
             continue;
@@ -397,7 +433,7 @@ pub fn run(tier: Tier) -> BResult {
         violations,
         exhaustive: true,
         caps: vec![],
-        rule: "complete grid sending mechanism (11) x catchable non-forbidden signal (quick: 6 representative numbers; thorough: all) with the delivery observed by the library twice and by an independent chained SA_SIGINFO reader; plus the complete synthetic grid si_signo 1..64 x si_code in [-10,10]+{0x80,MIN,MAX} with a poisoned union; distinct = distinct (mechanism, raw si_code) and (cause class, process?) pairs".into(),
+        rule: "complete grid sending mechanism (11) x catchable non-forbidden signal (quick: 6 representative numbers; thorough: all) with the delivery observed by the library twice and by an independent chained SA_SIGINFO reader; plus the complete synthetic grid si_signo 1..64 x si_code in [-10,10]+{0x80,MIN,MAX} with a poisoned union, and again with si_pid / si_uid in {(0,4242), (0,0), (4242,0), (1,1)} (pid 0 = sender outside the receiver's pid namespace); distinct = distinct (mechanism, raw si_code) and (cause class, process?) pairs".into(),
         assumptions: vec!["the independent reader uses libc's own siginfo accessors".into(), "feature extended-siginfo (extract.c compiled with the system C compiler)".into()],
     }
 }
